@@ -134,14 +134,15 @@ func runC06(t *simrt.Tape, o Opts) Outcome {
 		attempted := false
 		// optionally drop caches (fresh sessions) so that the foreign IK is loaded from the store
 		if t.Choose(2, "fresh") == 1 {
-			for part := range sess {
+			for _, part := range sortedKeysSess(sess) {
 				if se, err := w.Open(p, part); err == nil {
 					sess[part] = se
 				}
 			}
 		}
 		for _, rec := range w.Recs {
-			for part, se := range sess {
+			for _, part := range sortedKeysSess(sess) {
+				se := sess[part]
 				if part == rec.Part {
 					continue
 				}
@@ -380,7 +381,8 @@ func runC07(t *simrt.Tape, o Opts) Outcome {
 		}
 		// Load with a loader that has no such record
 		count(st.Oracle, "missing-record-load")
-		for _, se := range sess {
+		for _, part := range sortedKeysSess(sess) {
+			se := sess[part]
 			op := w.LoadMissing(se)
 			if op.Panic == "" && op.Err == nil {
 				w.Violate("load-missing-ok", "load-missing-ok", "Session.Load of a key the loader does not have returned success")
@@ -446,4 +448,13 @@ func corruptRow(w *world.World, t *simrt.Tape, kind, pos int, rec *world.Rec) bo
 	}
 	w.Store.Corrupt(id, created, refimpl.MakeKeyRecord(cr, kb, pm, row.Revoked), corNames[kind])
 	return true
+}
+
+func sortedKeysSess(m map[string]*world.Sess) []string {
+	var ks []string
+	for k := range m {
+		ks = append(ks, k)
+	}
+	sortStrings(ks)
+	return ks
 }
